@@ -8,8 +8,11 @@ From T4V Require Import Base.Scalar C13.Model C13.Spec C13.Proofs C13.ProofsDedu
 Import ListNotations.
 Open Scope Z_scope.
 
-Definition shape (d : list (Z * mcell)) : list (Z * Z * option Z) :=
-  map (fun kv => (fst kv, cuniv (snd kv), cfill (snd kv))) d.
+(* everything of a cell but its geometry: universe, FILL mark, provenance, material *)
+Definition tag (c : mcell) : Z * option Z * list (Z * Z) * Z := (cuniv c, cfill c, corigin c, cmat c).
+
+Definition shape (d : list (Z * mcell)) : list (Z * (Z * option Z * list (Z * Z) * Z)) :=
+  map (fun kv => (fst kv, tag (snd kv))) d.
 
 Definition bounded (st : fstate) : Prop := forall k, lookup k (fst st) <> None -> k <= snd st.
 
@@ -18,32 +21,32 @@ Definition same_models (d1 d2 : list (Z * mcell)) : Prop :=
 
 Lemma shape_lookup d1 : forall d2 k, shape d1 = shape d2 ->
   match lookup k d1, lookup k d2 with
-  | Some c1, Some c2 => cuniv c1 = cuniv c2 /\ cfill c1 = cfill c2
+  | Some c1, Some c2 => tag c1 = tag c2
   | None, None => True
   | _, _ => False
   end.
 Proof.
   induction d1 as [|[k1 c1] r1 IH]; intros [|[k2 c2] r2] k H; cbn [shape map] in H; try discriminate.
   - exact I.
-  - injection H as Hk Hu Hf Hr. cbn [fst snd] in *. subst k2. cbn [lookup].
-    destruct (Z.eqb k1 k); [split; assumption|]. apply IH. exact Hr.
+  - injection H as Hk H1 H2 H3 H4 Hr. cbn [fst snd] in *. subst k2. cbn [lookup].
+    destruct (Z.eqb k1 k); [unfold tag; congruence|]. apply IH. exact Hr.
 Qed.
 
-Lemma shape_update d1 : forall d2 k c1 c2, shape d1 = shape d2 ->
-  cuniv c1 = cuniv c2 -> cfill c1 = cfill c2 ->
+Lemma shape_update d1 : forall d2 k c1 c2, shape d1 = shape d2 -> tag c1 = tag c2 ->
   shape (update k c1 d1) = shape (update k c2 d2).
 Proof.
-  induction d1 as [|[k1 x1] r1 IH]; intros [|[k2 x2] r2] k c1 c2 H Hu Hf; cbn [shape map] in H; try discriminate.
-  - cbn. rewrite Hu, Hf. reflexivity.
-  - injection H as Hk Hu' Hf' Hr. cbn [fst snd] in *. subst k2. cbn [update].
+  induction d1 as [|[k1 x1] r1 IH]; intros [|[k2 x2] r2] k c1 c2 H Ht; cbn [shape map] in H; try discriminate.
+  - cbn. rewrite Ht. reflexivity.
+  - injection H as Hk H1 H2 H3 H4 Hr. cbn [fst snd] in *. subst k2. cbn [update].
+    assert (Ht' : tag x1 = tag x2) by (unfold tag; congruence).
     destruct (Z.eqb k1 k).
-    + cbn [shape map fst snd]. rewrite Hu, Hf. f_equal. exact Hr.
-    + cbn [shape map fst snd]. rewrite Hu', Hf'. f_equal. apply IH; assumption.
+    + cbn [shape map fst snd]. rewrite Ht. f_equal. exact Hr.
+    + cbn [shape map fst snd]. rewrite Ht'. f_equal. apply IH; assumption.
 Qed.
 
 Lemma shape_keys d1 d2 : shape d1 = shape d2 -> map fst d1 = map fst d2.
 Proof.
-  intros H. assert (E : forall d, map fst d = map (fun t => fst (fst t)) (shape d)).
+  intros H. assert (E : forall d, map fst d = map fst (shape d)).
   { intros d. unfold shape. rewrite map_map. reflexivity. }
   rewrite (E d1), (E d2), H. reflexivity.
 Qed.
@@ -137,7 +140,10 @@ Proof.
   - destruct Hs as [Hc [Hsh [Hm [Hb1 Hb2]]]]. cbn [fst snd] in *. subst c2.
     pose proof (shape_lookup d1 d2 e Hsh) as He.
     destruct (lookup e d1) as [ec1|] eqn:E1, (lookup e d2) as [ec2|] eqn:E2; try contradiction; [|reflexivity].
-    pose proof (shape_lookup d1 d2 key Hsh) as Hkk. rewrite Hk1, Hk2 in Hkk. destruct Hkk as [Hu _].
+    pose proof (shape_lookup d1 d2 key Hsh) as Hkk. rewrite Hk1, Hk2 in Hkk.
+    assert (Htag : forall g1 g2, tag (filled_cell key cell1 e ec1 g1) = tag (filled_cell key cell2 e ec2 g2)).
+    { intros g1 g2. unfold tag, filled_cell in *. cbn [cuniv cfill corigin cmat].
+      injection Hkk as Hu _ Ho _. injection He as _ _ Hoe Hme. rewrite Hu, Ho, Hoe, Hme. reflexivity. }
     assert (Hf1 : lookup (c1 + 1) d1 = None).
     { destruct (lookup (c1 + 1) d1) eqn:E; [|reflexivity].
       assert (c1 + 1 <= c1) by (apply (Hb1 (c1 + 1)); cbn [fst]; congruence). lia. }
@@ -147,7 +153,7 @@ Proof.
     apply IH.
     + split; [reflexivity|]. cbn [fst snd]. split; [apply shape_update; auto|].
       split; [|split].
-      * intros sigma rho. rewrite !is_model_update_fresh by assumption. cbn [cgeom].
+      * intros sigma rho. rewrite !is_model_update_fresh by assumption. unfold filled_cell. cbn [cgeom].
         split; intros [H0 H1].
         -- pose proof (proj1 (Hm sigma rho) H0) as H0'. split; [exact H0'|].
            rewrite (fill_geometry_den sigma rho d2 fd2 fg2 key cell2 e ec2 H0' Hk2 E2).
@@ -183,7 +189,8 @@ Proof.
   pose proof (shape_lookup _ _ key Hsh) as Hk.
   destruct (lookup key (fst s1)) as [c1|] eqn:E1, (lookup key (fst s2)) as [c2|] eqn:E2;
     try contradiction; [|reflexivity].
-  destruct Hk as [_ Hf]. rewrite Hf. destruct (cfill c2) as [u|]; [|split; [reflexivity|exact Hs]].
+  assert (Hf : cfill c1 = cfill c2) by (unfold tag in Hk; congruence).
+  rewrite Hf. destruct (cfill c2) as [u|]; [|split; [reflexivity|exact Hs]].
   pose proof (fill_each_rel _ _ (IH) (cells_of_universe dic0 u) s1 s2 Hs) as H1. unfold rrel in H1.
   destruct (fill_each (pot_fill f fd1 fg1 dic0) _ s1) as [[tp1 t1]|e1] eqn:F1,
            (fill_each (pot_fill f fd2 fg2 dic0) _ s2) as [[tp2 t2]|e2] eqn:F2; try contradiction; [|exact H1].
@@ -215,7 +222,7 @@ Proof.
   induction elts as [|e r IH]; intros [d c] acc ks st' H Hb Hk [rank Hac]; cbn [make_cells] in H.
   - injection H as _ <-. exists rank. exact Hac.
   - cbn [fst snd] in *. destruct (lookup e d) as [ec|] eqn:Ee; [|discriminate].
-    pose proof (ext_step d c (mkCell (cuniv cell) None (fill_geometry fd fg key (cgeom cell) e (cgeom ec))) Hb)
+    pose proof (ext_step d c (filled_cell key cell e ec (fill_geometry fd fg key (cgeom cell) e (cgeom ec))) Hb)
       as [Hb' [_ Hl']].
     apply (IH _ _ _ _ H Hb'); [apply Hl'; exact Hk|]. cbn [fst].
     assert (Hfresh : lookup (c + 1) d = None).
@@ -227,11 +234,11 @@ Proof.
               (if Z.eqb y (c + 1) then S (Nat.max (rank key) (rank e)) else rank y) = rank y).
     { intros y Hy. destruct (Z.eqb y (c + 1)) eqn:E; [|reflexivity].
       apply Z.eqb_eq in E; subst y. congruence. }
-    assert (Hres : forall y, lookup y d <> None -> lookup y (update (c + 1) (mkCell (cuniv cell) None
+    assert (Hres : forall y, lookup y d <> None -> lookup y (update (c + 1) (filled_cell key cell e ec
                      (fill_geometry fd fg key (cgeom cell) e (cgeom ec))) d) <> None).
     { intros y Hy. rewrite lookup_update. destruct (Z.eqb (c + 1) y); [discriminate|exact Hy]. }
     destruct (Z.eqb (c + 1) j) eqn:Ej.
-    + apply Z.eqb_eq in Ej; subst j. injection Hj as <-. cbn [cgeom] in Hx.
+    + apply Z.eqb_eq in Ej; subst j. injection Hj as <-. unfold filled_cell in Hx. cbn [cgeom] in Hx.
       rewrite Z.eqb_refl.
       assert (Hx' : (rank x <= Nat.max (rank key) (rank e))%nat /\ lookup x d <> None).
       { unfold fill_geometry in Hx. cbn [refs flat_map] in Hx. rewrite app_nil_r in Hx.
